@@ -63,7 +63,14 @@ func getChildName(path []string, node unserialized, sn schema.Node) (string, err
 			}
 			found = true
 
-			vals, _ := ch.values()
+			// The key is a leaf: it has exactly one value
+			vals, err := ch.values()
+			if err != nil {
+				return "", err
+			}
+			if len(vals) != 1 {
+				return "", schema.NewMissingKeyError([]string{key})
+			}
 			name = vals[0]
 
 			// Validate the value of the key
@@ -134,6 +141,10 @@ func convertToDataNode(path []string, name string, node unserialized, sn schema.
 			return nil, err
 		}
 		if _, ok := sn.(schema.Leaf); ok {
+			// A leaf has exactly one value (an empty leaf the value "")
+			if len(values) != 1 {
+				return nil, schema.NewMissingValueError(path)
+			}
 			if _, isEmpty := sn.Type().(schema.Empty); isEmpty {
 				if len(values) > 0 && (len(values) != 1 || values[0] != "") {
 					return nil, schema.NewEmptyLeafValueError(node.name(), path)
